@@ -72,7 +72,7 @@ def _run_chunk(args):
         "counters": Counter(), "sigs": set(), "states": set(),
         "samples": [], "violation": None, "violations": [], "n_violating": 0, "error": None, "known": {},
     }
-    faulthandler.dump_traceback_later(300, exit=True)
+    faulthandler.dump_traceback_later(3600, exit=True)
     try:
         for i in indices:
             if deadline and time.time() > deadline:
